@@ -116,6 +116,25 @@ class _Writer:
         return
 
 
+_CLOCK = [None]      # a controllable clock for time.monotonic / time.time while sessions run (None = the real one)
+
+
+class _FakeTime:
+    """while active, time.monotonic() and time.time() return a clock the harness advances (silence on the line)"""
+    def __enter__(self):
+        import time as _t
+        self.t, self.saved = _t, (_t.monotonic, _t.time)
+        base_m, base_t = _t.monotonic(), _t.time()
+        _CLOCK[0] = 0.0
+        _t.monotonic = lambda: base_m + _CLOCK[0]
+        _t.time = lambda: base_t + _CLOCK[0]
+        return self
+
+    def __exit__(self, *a):
+        self.t.monotonic, self.t.time = self.saved
+        _CLOCK[0] = None
+
+
 class _Port:
     """one real WaveShare client on a scripted serial port, opened through the client's own _connect_impl (so whatever
     the client sets up for a new connection is set up by the client, not by the harness)"""
@@ -231,6 +250,43 @@ async def _run_one(chunks):
     finally:
         await p.shut()
     return p.steps
+
+
+def _silence_oracle(ctx, rng, only=None):
+    """silence on the line (seconds without a byte, also in the middle of a packet) is not noise: a stream of valid packets
+    read with pauses between the reads loses nothing. time.monotonic / time.time are driven by the harness."""
+    async def run(reads, pauses):
+        p = await _Port().open()
+        try:
+            for ch, pz in zip(reads, pauses):
+                if pz:
+                    _CLOCK[0] += pz
+                await p.feed(ch)
+        finally:
+            await p.shut()
+        return p.steps
+
+    def judge(segs, reads, pauses):
+        with _FakeTime():
+            steps = asyncio.run(run(reads, pauses))
+        return _oracle(segs, reads, steps)
+    if only is not None:
+        segs = [(t, bytes.fromhex(b)) for t, b in only["segs"]]
+        reads = [bytes.fromhex(x) for x in only["reads"]]
+        return judge(segs, reads, only["pauses"])
+    for _ in range(ctx.n(12, 150)):
+        segs = [("P", rng.choice(_pool())[0]) for _ in range(rng.randint(2, 6))]
+        stream = _stream(segs)
+        reads = rng.choice(_segmentations(rng, stream, 3))
+        pauses = [rng.choice([0, 0, 0, 1.5, 2.0, 5.0, 0.4, 61.0]) for _ in reads]
+        w = judge(segs, reads, pauses)
+        if w:
+            w = dict(w)
+            w["key"] = "silence:" + w["key"]
+            w["what"] = ("valid packets only, pauses of " + str(sorted({x for x in pauses if x})) + " s between some reads: " + w["what"])
+            w.update(kind="silence", segs=[[t, b.hex()] for t, b in segs], reads=[c.hex() for c in reads], pauses=pauses)
+            return w
+    return None
 
 
 async def _run_ports(scripts, order, reopen_at=None):
@@ -432,8 +488,12 @@ def _packet_seg(rng):
     r = rng.random()
     pool = _pool()
     p = rng.choice(pool)[0]
-    if r < 0.55:
+    if r < 0.50:
         return ("P", p)
+    if r < 0.55:
+        # valid header and checksum, content the decoder raises on (a value out of its range): cut out like any packet
+        import vloop as _VL
+        return ("V", _VL.bad_frame("waveshare", rng.randrange(8)))
     if r < 0.65:
         body = bytearray(rng.getrandbits(8) for _ in range(17))
         if rng.random() < 0.3:
@@ -907,6 +967,10 @@ def search(ctx):
     if w and w["key"] not in keys:
         keys.add(w["key"])
         out.append(w)
+    w = _silence_oracle(ctx, rng)
+    if w and w["key"] not in keys:
+        keys.add(w["key"])
+        out.append(w)
     # then structured sessions; those the correspondence disagreed on first (their construction is known)
     hinted = []
     for h in ctx.hints:
@@ -928,6 +992,8 @@ def replay(ctx, data):
     w = data.get("witness", data)
     if w.get("kind") == "bound":
         r = _bound_run(w["flavour"], int(w["n"]), int(w["read"]))
+    elif w.get("kind") == "silence":
+        r = _silence_oracle(ctx, ctx.rng, only=w)
     elif w.get("kind") == "ports":
         r = _ports_oracle(ctx, ctx.rng, only=w)
         r = r and r[1]
